@@ -1251,7 +1251,9 @@ func (r *runningStep) enableStage() (bool, bool) {
 // - error: Any error that occurred while trying to start the step.
 func (r *runningStep) startStage(container deployer.Plugin) (bool, int64, error) {
 	r.logger.Debugf("Starting stage for step %s/%s", r.runID, r.pluginStepID)
-	atpClient := atp.NewClientWithLogger(container, r.logger.WithLabel("source", "atp-client"))
+	// The channel to the plugin is watched, so that signals are only passed on once the work start message is written.
+	pluginChannel := &workStartWatcher{ClientChannel: container, workStartWritten: make(chan struct{})}
+	atpClient := atp.NewClientWithLogger(pluginChannel, r.logger.WithLabel("source", "atp-client"))
 	var inputReceivedEarly bool
 	r.lock.Lock()
 	r.atpClient = atpClient
@@ -1331,15 +1333,30 @@ func (r *runningStep) startStage(container deployer.Plugin) (bool, int64, error)
 
 	r.wg.Add(1)
 
+	// The ATP client passes signals on from the moment it is asked to execute the step, but a plugin rejects
+	// a signal for a step it has not yet been told to start. A cancel signal sent right after the step entered
+	// the running stage could therefore be lost. Signals are held back until the work start message is written.
+	signalsToStep := r.signalToStep
+	signalsToClient := make(chan schema.Input, cap(signalsToStep))
+	executeReturned := make(chan struct{})
+	forwardingDone := make(chan struct{})
+	pluginChannel.watch()
+	go func() {
+		defer close(forwardingDone)
+		forwardSignalsAfterWorkStart(signalsToStep, signalsToClient, pluginChannel.workStartWritten, executeReturned)
+	}()
+
 	// Runs the ATP client in a goroutine in order to wait for it.
 	// On context done, the deployer has limited time before it will error out.
 	go func() {
 		defer r.wg.Done()
 		result := r.atpClient.Execute(
 			schema.Input{RunID: r.runID, ID: r.pluginStepID, InputData: runInput.stepInputData},
-			r.signalToStep,
+			signalsToClient,
 			r.signalFromStep,
 		)
+		close(executeReturned)
+		<-forwardingDone
 		r.lock.Lock()
 		// The sender should be the one to close the signal send channel
 		channel := r.signalToStep
@@ -1352,6 +1369,60 @@ func (r *runningStep) startStage(container deployer.Plugin) (bool, int64, error)
 		}
 	}()
 	return false, runInput.forceCloseTimeoutMS, nil
+}
+
+// workStartWatcher is the channel to a plugin that reports when the first message after watch() is written.
+// The ATP client writes nothing but the work start message when it is asked to execute a step, as long as it is
+// not given a signal to pass on.
+type workStartWatcher struct {
+	atp.ClientChannel
+	watching         atomic.Bool
+	reported         atomic.Bool
+	workStartWritten chan struct{}
+}
+
+func (w *workStartWatcher) watch() {
+	w.watching.Store(true)
+}
+
+func (w *workStartWatcher) Write(p []byte) (int, error) {
+	watching := w.watching.Load()
+	n, err := w.ClientChannel.Write(p)
+	if watching && err == nil && !w.reported.Swap(true) {
+		close(w.workStartWritten)
+	}
+	return n, err
+}
+
+// forwardSignalsAfterWorkStart passes the signals on, in order, once the work start message is written.
+// It returns when there are no more signals or when the execution is over, and closes the forwarding channel.
+func forwardSignalsAfterWorkStart(
+	from <-chan schema.Input,
+	to chan<- schema.Input,
+	workStartWritten <-chan struct{},
+	executeReturned <-chan struct{},
+) {
+	defer close(to)
+	select {
+	case <-workStartWritten:
+	case <-executeReturned:
+		return
+	}
+	for {
+		select {
+		case signal, ok := <-from:
+			if !ok {
+				return
+			}
+			select {
+			case to <- signal:
+			case <-executeReturned:
+				return
+			}
+		case <-executeReturned:
+			return
+		}
+	}
 }
 
 func (r *runningStep) runStage(forceCloseTimeoutMS int64) error {
